@@ -164,12 +164,25 @@ def coq_props(cdir, prop_file):
     return ok, log, thms, closed, axioms
 
 FORBIDDEN = re.compile(r'\b(Admitted|admit|Axiom|Parameter|Conjecture|Unset Guard|bypass_check|Admit Obligations)\b')
+def strip_coq_comments(text):
+    out = []; depth = 0; i = 0; n = len(text); instr = False
+    while i < n:
+        if depth == 0 and text[i] == '"':
+            instr = not instr; out.append(text[i]); i += 1; continue
+        if not instr and text.startswith("(*", i):
+            depth += 1; i += 2; continue
+        if not instr and depth > 0 and text.startswith("*)", i):
+            depth -= 1; i += 2; continue
+        if depth == 0: out.append(text[i])
+        elif text[i] == "\n": out.append("\n")
+        i += 1
+    return "".join(out)
+
 def grep_gate(cdir):
     bad = []
     for f in sorted(glob.glob(os.path.join(cdir, "*.v"))):
-        for i, line in enumerate(open(f), 1):
-            l = re.sub(r'\(\*.*?\*\)', '', line)
-            if FORBIDDEN.search(l):
+        for i, line in enumerate(strip_coq_comments(open(f).read()).splitlines(), 1):
+            if FORBIDDEN.search(line):
                 bad.append("%s:%d: %s" % (os.path.basename(f), i, line.strip()))
     return bad
 
